@@ -23,31 +23,34 @@ func (r Result) String() string { return [...]string{"unsat", "sat", "unknown"}[
 
 // Solver drives one long-lived `z3 -in` (or compatible) process.
 type Solver struct {
-	Bin       []string
-	TimeoutMs int
-	cmd       *exec.Cmd
-	in        io.WriteCloser
-	out       *bufio.Reader
-	defined   map[int]bool
-	declared  map[string]bool
-	Queries   int
-	NSat      int
-	NUnsat    int
-	NUnknown  int
-	Errors    int
-	Time      time.Duration
-	Trace     io.Writer // optional transcript
-	inPath    bool
-	Mirror    *Solver // optional second solver that receives the same session; verdicts are compared
-	MirrorAll  bool   // mirror every check (default: only the checks announced through MirrorNext, i.e. assertion queries)
-	MirrorNext bool
-	mirrorThis bool
-	MirrorChecks int
-	Disagree  int
-	Slowest   time.Duration
-	NSlow     int
-	Lost      bool // the process was killed after a hard timeout: the current path context is gone
-	lines     chan string
+	Bin           []string
+	TimeoutMs     int
+	cmd           *exec.Cmd
+	in            io.WriteCloser
+	out           *bufio.Reader
+	defined       map[int]bool
+	declared      map[string]bool
+	Queries       int
+	NSat          int
+	NUnsat        int
+	NUnknown      int
+	Errors        int
+	Time          time.Duration
+	Trace         io.Writer // optional transcript
+	inPath        bool
+	Mirror        *Solver // optional second solver that receives the same session; verdicts are compared
+	MirrorAll     bool    // mirror every check (default: only the checks announced through MirrorNext, i.e. assertion queries)
+	MirrorNext    bool
+	mirrorThis    bool
+	MirrorChecks  int
+	MirrorSkipped int
+	MirrorTime    time.Duration
+	mirrorSkip    int
+	Disagree      int
+	Slowest       time.Duration
+	NSlow         int
+	Lost          bool // the process was killed after a hard timeout: the current path context is gone
+	lines         chan string
 }
 
 func NewSolver(bin []string, timeoutMs int) *Solver {
@@ -275,6 +278,15 @@ func (s *Solver) Check(st *Store, assume []*Term, negate []bool) Result {
 	s.Queries++
 	s.mirrorThis = s.Mirror != nil && (s.MirrorAll || s.MirrorNext)
 	s.MirrorNext = false
+	if s.mirrorThis && s.MirrorTime > 20*time.Second && 2*s.MirrorTime > s.Time {
+		// the second solver has become the bottleneck of this session (it accounts for more than half of the solver time:
+		// from here on it cross-checks a sample of the assertion queries)
+		s.mirrorSkip++
+		if s.mirrorSkip%20 != 0 {
+			s.mirrorThis = false
+			s.MirrorSkipped++
+		}
+	}
 	if s.mirrorThis {
 		s.MirrorChecks++
 	}
@@ -326,7 +338,9 @@ func (s *Solver) Check(st *Store, assume []*Term, negate []bool) Result {
 		}
 	}
 	if s.Mirror != nil && s.mirrorThis {
+		tm := time.Now()
 		mv := s.mirrorVerdict()
+		s.MirrorTime += time.Since(tm)
 		if mv != Unknown && res != Unknown && mv != res {
 			s.Disagree++
 			res = Unknown
